@@ -28,6 +28,18 @@ From GQ Require Import Lib.Key Lib.SMap Generated.C01Params.
 Import ListNotations.
 Local Open Scope N_scope.
 
+(* ------------------------------------------------------------------ case-file syntax
+   Byte strings in the generated case files are written  hx "a0ff"  (= [160; 255]): a string literal is
+   read about ten times faster by coqc than the same list of numerals, and reading the case terms is what
+   the case shards spend their time on.  (String is required, not imported: no name of it is visible here.) *)
+From Coq Require String Ascii.
+Definition hexv (a : Ascii.ascii) : N := let n := Ascii.N_of_ascii a in if n <? 58 then n - 48 else n - 87.
+Fixpoint hx (s : String.string) : list N :=
+  match s with
+  | String.String a (String.String b r) => (16 * hexv a + hexv b) :: hx r
+  | _ => []
+  end.
+
 (* ------------------------------------------------------------------ data *)
 
 Record utxo := mkU { u_den : N; u_owner : list N; u_lock : N }.   (* types.UtxoEntry *)
